@@ -1162,6 +1162,30 @@ def c27(run):
     sample_scenario(run, t, has_bulk, maxlen=5)
 
 
+def has_anon_conflict(sc):
+    return any(e.get('ev') == 'anon' and e.get('res') == 'ok' and '|' in e['orig']['shape'] for e in sc)
+
+
+def c31(run):
+    run.cov["rule"] = ("histories with maps, lists, text (multi-unit characters, marks), counters, strings, conflicts, nested and "
+                       "deleted objects on 2-3 replicas; every replica is anonymized; both change graphs (seq, op count, actor "
+                       "class, dependencies) and the canonical shape (object types, number of keys, list order and lengths, "
+                       "text widths, conflict multiplicities; values, key names, ids, mark values forgotten) at the current "
+                       "heads and at every single change are logged; Trace_Interp Anon: equal bags of recursive change "
+                       "signatures, equal actor partitions, every change has a counterpart with the same signature and the same "
+                       "shape at its heads, the anonymized document saves and reloads; non-trivial = scenario whose shape has "
+                       "a conflicted register")
+    rich_off = os.path.join(run.work, "anon.ndjson")
+    drive(["anon", run.seed, sizes(run, 150, 4000), rich_off])
+    run.validate("Trace_Interp.tla", ["C31"], rich_off, "anon")
+    count_nontrivial(run, rich_off, has_anon_conflict)
+    sample_scenario(run, rich_off, has_anon_conflict, maxlen=3)
+    t2 = os.path.join(run.work, "anontext.ndjson")
+    drive(["anontext", run.seed, sizes(run, 100, 2500), t2])
+    run.validate("Trace_Interp.tla", ["C31"], t2, "anontext")
+    count_nontrivial(run, t2, has_anon_conflict)
+
+
 def replay(run, path):
     """re-validate a recorded violating scenario"""
     from . import tlc_trace
@@ -1189,6 +1213,7 @@ REG = {
     "C30": ("model_checking", c30),
     "C34": ("model_checking", c34),
     "C32": ("model_checking", c32),
+    "C31": ("model_checking", c31),
     "C27": ("model_checking", c27),
     "C15": ("fault_enumeration", c15),
     "C16": ("fault_enumeration", c16),
